@@ -360,6 +360,8 @@ def gen_defn(rng, formats, depth=0, max_fields=12) -> Defn:
             d.derived.add(f.names[0])
     # user __init__ and defaults (suffix of the names)
     c = rng.random()
+    if c >= 0.45 and c < 0.57:
+        d.user_init = "star"    # `def __init__(self, *args, **kwargs)` that only forwards: no parameter is named like a field
     if c < 0.45:
         d.user_init = rng.choice(["kw", "nokw"])
         nd = rng.choice([0, 1, 1, 2, 3, len(d.names)])
@@ -434,7 +436,11 @@ def namespace_for(d: Defn, form: str, with_init=True):
             continue        # convert_to_payload has to derive this one from the tuple[...] / set[...] annotation
         ns["fix_unpack_" + n] = staticmethod(HOOKS[k][1]) if k in ("tuple", "set") and n not in d.derived \
             else _mk_hook_unpack(HOOKS[k][1])
-    if with_init and d.user_init is not None:
+    if with_init and d.user_init == "star":
+        env = {"_VP": VariablePayload}
+        exec("def __init__(self, *args, **kwargs):\n    _VP.__init__(self, *args, **kwargs)\n", env)
+        ns["__init__"] = env["__init__"]
+    elif with_init and d.user_init is not None:
         plist = [f"{n}=_D[{n!r}]" if n in d.defaults else n for n in d.names]
         if d.kwonly:
             plist.insert(len(plist) - d.kwonly, "*")
@@ -673,7 +679,7 @@ def defn_tokens(d: Defn, form: str):
                           "nlist": f"l:N{f.sub.uid}" if f.sub else ""}[f.kind])
         fm = "[" + ",".join(items) + "]"
     names = "[" + ",".join(d.names) + "]"
-    init = {None: "-", "kw": "kw", "nokw": "nokw"}[d.user_init]
+    init = {None: "-", "star": "-", "kw": "kw", "nokw": "nokw"}[d.user_init]   # a forwarding *args __init__ binds like none
     if d.super_n and form != "D":
         init = f"super:{d.super_n}"
     if d.kwonly and form != "D":
@@ -1296,7 +1302,7 @@ class Run:
     def init_branches(self, d, form, kind, posn, kwn, real):
         ctx, ok = self.ctx, real[0] == "ok"
         if form == "I":
-            if d.user_init is None:
+            if d.user_init in (None, "star"):
                 if ok and posn:
                     B(ctx, "vpInit:positional")
                 if ok and kwn:
@@ -2117,6 +2123,108 @@ def dataclass_options(run: "Run", n: int):
                         f"{str(rb)[:160]}", {"dataclass_options": {"kind": kind, "format": fmt}, "stage": "dataclass-options"})
 
 
+
+def custom_init_params(run: "Run", n: int):
+    """a definition whose own __init__ does not spell its parameters like the fields (or takes *args) and forwards them
+    positionally: positional construction, bytes and DECODING must agree between the plain and the compiled form"""
+    from ipv8.messaging.lazy_payload import VariablePayload, vp_compile
+    ctx, rng = run.ctx, run.ctx.rng
+    for i in range(n):
+        kind = ["renamed", "renamed+default-unused", "star-only"][i % 3]
+        full, _ = gen_chain(rng, 1, False)
+        d = prefix_defn(full, len(full.fields), False)
+        k = len(d.names)
+        if kind == "star-only":
+            src = "def __init__(self, *values):\n    _VP.__init__(self, *values)\n"
+        else:
+            ps = [f"p{j}" for j in range(k)]
+            sig = ", ".join(ps[:-1] + [ps[-1] + ("=None" if kind.endswith("unused") else "")])
+            src = f"def __init__(self, {sig}):\n    _VP.__init__(self, {', '.join(ps)})\n"
+        classes = {}
+        for form in ("I", "C"):
+            env = {"_VP": VariablePayload}
+            exec(src, env)
+            ns = hooks_ns(full, d.names)
+            ns.update({"format_list": [f.fmt for f in d.fields], "names": list(d.names), "__init__": env["__init__"]})
+            cls = type(f"CI{d.uid}{form}", (VariablePayload,), ns)
+            classes[form] = vp_compile(cls) if form == "C" else cls
+        ctx.count(f"custom-init:{kind}")
+        B(ctx, "custom-init:star" if kind == "star-only" else "custom-init:renamed")
+        ctx.case(("custom-init", kind, d.shape()), True)
+        rep = {"custom_init": {"kind": kind, "source": src, "definition": defn_replay(d)}, "stage": "custom-init"}
+        _, api = gen_values(rng, d)
+        out = {}
+        for form, cls in classes.items():
+            o = attempt(lambda: cls(*[api[x] for x in d.names]))
+            if o[0] != "ok":
+                out[form] = ("ctor-" + o[1],)
+                continue
+            b = attempt(lambda: run.ser.pack_serializable(o[1]))
+            if b[0] != "ok":
+                out[form] = ("ok", attrs_of(o[1]), "pack-" + b[1])
+                continue
+            dd = attempt(lambda: run.ser.unpack_serializable(cls, b[1]))
+            out[form] = ("ok", attrs_of(o[1]), b[1], ("ok", attrs_of(dd[1][0]), dd[1][1]) if dd[0] == "ok" else ("decode-" + dd[1],))
+        ctx.count(f"custom-init:decode:{out['I'][-1][0] if isinstance(out['I'][-1], tuple) else out['I'][-1]}")
+        if out["I"] != out["C"]:
+            ctx.oracle_fail("custom-init:constructor-bytes-decoding", f"own __init__ `{src.splitlines()[0]}`: plain form "
+                            f"{str(out['I'])[:220]} but compiled form {str(out['C'])[:220]}", rep)
+
+
+def postponed_annotations(run: "Run", n: int):
+    """dataclass payloads whose nested payload is named by a STRING annotation (`from __future__ import annotations`,
+    classes defined inside a function): get_type_hints resolves the name in the module, where convert_to_payload publishes
+    every converted class.  Several generations reuse the class names with other layouts; every holder must nest ITS
+    generation's item, like the plain definition with format_list [q, Item_g, [Item_g]]."""
+    from ipv8.messaging.lazy_payload import VariablePayload
+    from ipv8.messaging.payload_dataclass import DataClassPayload
+    ctx, rng = run.ctx, run.ctx.rng
+    mod = generated_module()
+    layouts = [(int, "q", lambda: rint(rng, *INT_RANGES["q"])), (float, "d", lambda: rfloat(rng, False)),
+               (bytes, "varlenH", lambda: rbytes(rng, 3)), (str, "varlenHutf8", lambda: rng.choice(STR_SAMPLES)),
+               (bool, "?", lambda: rng.random() < 0.5)]
+    for i in range(n):
+        name = f"PItem{i % 2}"
+        gens = rng.sample(layouts, 3)
+        for g, (pyt, fmt, val) in enumerate(gens):
+            item = dataclasses.make_dataclass(name, [("a", pyt)], bases=(DataClassPayload,))
+            holder = dataclasses.make_dataclass(f"PHolder{i % 2}", [("ident", int), ("item", name), ("items", f"list[{name}]")],
+                                                bases=(DataClassPayload,))
+            item.__module__ = holder.__module__ = mod
+            ctx.count(f"postponed:generation={g}")
+            B(ctx, "postponed:first-generation" if g == 0 else "postponed:later-generation")
+            ctx.case(("postponed", i, g), True)
+            rep = {"postponed": {"class_name": name, "generation": g, "layouts": [x[1] for x in gens[:g + 1]]},
+                   "stage": "postponed-annotations"}
+            args = attempt(lambda: (rint(rng, 0, 1000), item(val()), [item(val()) for _ in range(rng.randrange(3))]))
+            if args[0] != "ok":
+                ctx.oracle_fail("dataclass.postponed:binding", f"instantiating the item raises {args[1]}", rep)
+                continue
+            plain = type(f"PPlain{i}_{g}", (VariablePayload,), {"format_list": ["q", item, [item]], "names": ["ident", "item", "items"]})
+            dc = attempt(lambda: holder(*args[1]))
+            if dc[0] != "ok":
+                ctx.oracle_fail("dataclass.postponed:binding", f"instantiating the holder raises {dc[1]}", rep)
+                continue
+            fl = holder.format_list
+            if not (len(fl) == 3 and fl[1] is item and isinstance(fl[2], list) and fl[2][0] is item):
+                ctx.oracle_fail("dataclass.postponed:definition", f"generation {g}: the holder nests "
+                                f"{[getattr(x, '__name__', x) if not isinstance(x, list) else [x[0].__name__] for x in fl]} "
+                                f"with item layout {[getattr(x, 'format_list', None) for x in (fl[1], fl[2][0] if isinstance(fl[2], list) else None)]}"
+                                f", not this generation's item (layout {item.format_list})", rep)
+            bp = attempt(lambda: run.ser.pack_serializable(plain(*args[1])))
+            bd = attempt(lambda: run.ser.pack_serializable(dc[1]))
+            if bp != bd:
+                ctx.oracle_fail("dataclass.postponed:bytes", f"bytes {str(bd)[:120]} vs plain {str(bp)[:120]}", rep)
+            if bp[0] == "ok":
+                dp = attempt(lambda: run.ser.unpack_serializable(plain, bp[1]))
+                dh = attempt(lambda: run.ser.unpack_serializable(holder, bp[1]))
+                cp = ("ok", canon(dp[1][0]), dp[1][1]) if dp[0] == "ok" else ("err",)
+                ch = ("ok", canon(dh[1][0]), dh[1][1]) if dh[0] == "ok" else ("err", dh[1])
+                if cp != ch:
+                    ctx.oracle_fail("dataclass.postponed:decoded-fields", f"generation {g}: decoding gives {str(ch)[:200]} "
+                                    f"but the plain definition {str(cp)[:200]}", {**rep, "bytes": bp[1].hex()})
+
+
 # ---------------------------------------------------------------------------------------------------------------
 
 
@@ -2188,6 +2296,8 @@ def run_all(ctx: Ctx, n_defs: int, use_model: bool, small_n: int, per_shipped: i
     small_scope(r, small_n)
     shipped(r, per_shipped)
     reannotate(r, ctx.scale(48, 400))
+    custom_init_params(r, ctx.scale(30, 300))
+    postponed_annotations(r, ctx.scale(10, 100))
     for i in range(n_defs):
         d = gen_defn(ctx.rng, r.formats)
         checked(r, d)
@@ -2251,6 +2361,8 @@ REQUIRED_BRANCHES = [
     # nesting (packerWith / bytesOf / decodeObj)
     "nesting:compiled-holds-interpreted", "nesting:interpreted-holds-compiled", "nesting:dataclass-holds-other",
     "nesting:bytes-compositional", "nesting:decode-through-nested",
+    # own __init__ that only forwards (*args / renamed parameters); string annotations over generations (publish / resolveName)
+    "custom-init:star", "custom-init:renamed", "postponed:first-generation", "postponed:later-generation",
 ]
 
 
@@ -2299,6 +2411,8 @@ def search(ctx: Ctx, reason: str):
     small_scope(r, 3)
     shipped(r, 10)
     reannotate(r, 100)
+    custom_init_params(r, 60)
+    postponed_annotations(r, 30)
     for _ in range(800):
         checked(r, gen_defn(ctx.rng, r.formats))
     inheritance(r, 300)
